@@ -203,6 +203,9 @@ class Ctx:
         (VERIF / "evidence" / f"{self.prop}.json").write_text(
             json.dumps(ev, indent=1, default=repr, ensure_ascii=True) + "\n")
         shutil.rmtree(self.tmp, ignore_errors=True)
+        if os.environ.get("VERIF_VERBOSE"):
+            for v in self.violations:
+                print("  [violation]", ("(no input) " if v[2] else "") + v[0][:400])
         concrete = [v for v in self.violations if not v[2]]
         broken = [v for v in self.violations if v[2]]
         # a broken proof / correspondence is reported on its own only when the search found no failing input;
